@@ -207,3 +207,92 @@ pub fn dbg_rec(s: &mut Src, sh: &Shape) {
     }
     forget(r);
 }
+
+/// [2N] Two real nodes: node A campaigns, its real MsgRequestVote is stepped into node B, B's
+/// real response into A, A's first append into B.  Checks the assume/guarantee glue between
+/// the per-step obligations on the *actual* message values (C02 / C03 / C05 / C17-completion).
+/// `b_ahead`: B's log is longer than A's (then B must refuse and A must not lead).
+pub fn two_node_election(s: &mut Src, sh_a: &Shape, sh_b: &Shape, b_ahead: bool, transfer: bool) {
+    let (mut a, ga) = mk_raft(s, sh_a);
+    let (mut b, gb) = mk_raft(s, sh_b);
+    // B is node 2 in A's world: re-label by addressing only
+    let term0 = a.term;
+    if transfer {
+        let m = msg(MessageType::MsgTimeoutNow, 3, term0);
+        let _ = a.step(m);
+    } else {
+        let _ = a.step(msg(MessageType::MsgHup, 0, 0));
+    }
+    assert!(a.state == StateRole::Candidate && a.term == term0 + 1 && a.vote == ME);
+    // the request addressed to node 2
+    let mut req = None;
+    let mut k = 0;
+    while k < a.msgs.len() {
+        if a.msgs[k].to == 2 {
+            req = Some(a.msgs[k].clone());
+        }
+        k += 1;
+    }
+    let mut req = req.unwrap();
+    assert!(req.get_msg_type() == MessageType::MsgRequestVote && req.from == ME && req.term == term0 + 1);
+    a.msgs.clear();
+    // deliver to B (B sees itself as ME = 1 in its own state; only `from` matters to it: use id 2 <-> peer)
+    req.to = ME;
+    req.from = 2;
+    let bterm0 = b.term;
+    let res = b.step(req);
+    assert!(res.is_ok());
+    assert!(b.msgs.len() == 1);
+    let mut resp = b.msgs[0].clone();
+    assert!(resp.get_msg_type() == MessageType::MsgRequestVoteResponse && resp.to == 2);
+    let granted = !resp.reject;
+    // election restriction on the real values
+    let a_up_to_date = ga.last_term() > gb.last_term() || (ga.last_term() == gb.last_term() && ga.last() >= gb.last());
+    assert!(!granted || a_up_to_date, "B granted although A's log is behind");
+    if b_ahead {
+        assert!(!granted);
+    }
+    if granted {
+        assert!(b.vote == 2 && b.term == term0 + 1);
+    }
+    b.msgs.clear();
+    // deliver the response to A
+    resp.to = ME;
+    resp.from = 2;
+    let res = a.step(resp);
+    assert!(res.is_ok());
+    if granted {
+        assert!(a.state == StateRole::Leader && a.term == term0 + 1, "a majority (self + 1 of 3) granted");
+        // one leader per term between the two of them
+        assert!(!(b.state == StateRole::Leader && b.term == a.term));
+        // A's first append to node 2, delivered to B, is accepted and makes B's log equal A's
+        let mut ap = None;
+        let mut k = 0;
+        while k < a.msgs.len() {
+            if a.msgs[k].to == 2 && a.msgs[k].get_msg_type() == MessageType::MsgAppend {
+                ap = Some(a.msgs[k].clone());
+            }
+            k += 1;
+        }
+        let mut ap = ap.unwrap();
+        ap.to = ME;
+        ap.from = 2;
+        let res = b.step(ap);
+        assert!(res.is_ok());
+        assert!(b.state == StateRole::Follower && b.leader_id == 2 && b.term == a.term);
+        assert!(b.msgs.len() == 1 && b.msgs[0].get_msg_type() == MessageType::MsgAppendResponse);
+        if !b.msgs[0].reject {
+            let upto = b.msgs[0].index;
+            let mut i = 1;
+            while i <= upto {
+                assert!(b.raft_log.term(i).ok() == a.raft_log.term(i).ok(), "logs differ below an acknowledged index");
+                i += 1;
+            }
+        }
+    } else {
+        assert!(a.state != StateRole::Leader, "A leads without a granted vote");
+    }
+    vcover!(granted || b_ahead, "granted");
+    forget(a);
+    forget(b);
+}
